@@ -30,6 +30,7 @@ CONSTANTS
   InvAmt,     \* [InvId -> amount of the invoice, 0 = amountless]
   MaxParts, MaxPays, MaxCrash, MaxClock, MaxW, MaxR,
   HeightSet,  \* heights the chain may rise to
+  Direct,     \* number of direct calls of wait_payment / pay allowed (C15, C16); 0 in lifecycle instances
   Pinned      \* subset of {"D4","D5"}: model the pinned (defective) code at these points
 
 VARIABLES
@@ -88,7 +89,7 @@ CPay(h, inv, amount, maxfee, maxdelay) ==
 NoEntry == [on |-> FALSE, inv |-> 0, A |-> 0, recv |-> 0, minexp |-> 0,
             ready |-> FALSE, failreq |-> FALSE, readyQ |-> 0, failQ |-> NoResp]
 NoWaits == <<>>    \* [part id -> call slot] of the waitsendpay calls in progress
-NoLc == [pc |-> "none", inv |-> 0, A |-> 0, a |-> 0, g |-> 0, t |-> 0, deadline |-> 0,
+NoLc == [pc |-> "none", mode |-> "lc", inv |-> 0, A |-> 0, a |-> 0, g |-> 0, t |-> 0, deadline |-> 0,
          maxfee |-> 0, maxdelay |-> 0, site |-> "none",
          main |-> NoCall, lc |-> NoCall, lp |-> NoCall, waits |-> NoWaits]
 
@@ -106,7 +107,7 @@ Init ==
   /\ tails = [h \in Hashes |-> EmptyBag]
   /\ nextAtt = 1
   /\ lastAns = {}
-  /\ budget = [pays |-> MaxPays, crashes |-> MaxCrash, w |-> MaxW, r |-> MaxR]
+  /\ budget = [pays |-> MaxPays, crashes |-> MaxCrash, w |-> MaxW, r |-> MaxR, direct |-> Direct]
 
 ---------------------------------------------------------------------------
 (* A burst's effect on the plugin state of ONE hash is computed             *)
@@ -115,7 +116,11 @@ Init ==
 (*    resolve() broadcasts;  issues, drops : sets;  np : panics;  na : nextAtt] *)
 
 Res(e, o, ts, resp, issues, drops, np, na) ==
-  [e |-> e, o |-> o, ts |-> ts, resp |-> resp, issues |-> issues, drops |-> drops, np |-> np, na |-> na]
+  [e |-> e, o |-> o, ts |-> ts, resp |-> resp, issues |-> issues, drops |-> drops, np |-> np, na |-> na, rets |-> {}]
+\* a direct call of wait_payment / pay returns r to its caller
+Ret(e, ts, fn, h, r, drops, na) ==
+  [Res(e, NoLc, ts, NoResp, {}, drops, 0, na) EXCEPT
+     !.rets = {[fn |-> fn, hash |-> h, r |-> r, key |-> IF r \in {"pre", "ok"} THEN h ELSE ""]}]
 
 \* lifecycle ends, answering every listener with resp (resolve(): entry removed)
 Done(ts, resp, na) == Res(NoEntry, NoLc, ts, resp, {}, {}, 0, na)
@@ -158,7 +163,9 @@ ClearFrame(o) == [o EXCEPT !.lc = NoCall, !.lp = NoCall, !.waits = NoWaits]
 \* wait_payment returned ret \in {"pre","none","err"} to its call site
 AfterWait(h, e, o0, ts, ret, drops, na) ==
   LET o == ClearFrame(o0) IN
-  IF o.site = "restart"
+  IF o.mode = "dwp" THEN Ret(e, ts, "wp", h, ret, drops, na)
+  ELSE IF o.mode = "dpay" THEN Ret(e, ts, "pay", h, IF ret = "pre" THEN "ok" ELSE "err", drops, na)
+  ELSE IF o.site = "restart"
   THEN CASE ret = "pre"  -> LET c == CS1(h) IN    \* 445-464: resolve, then mark_succeeded as a tail
                             Res(NoEntry, NoLc, BagAdd(ts, [o EXCEPT !.pc = "markS1", !.main = Issued(c)]),
                                 Settle(h), {c}, drops, 0, na)
@@ -238,7 +245,9 @@ OwnerDeliver(h, slot, p) ==
          ELSE {Done(ts, FailNode, na)}
     [] o.pc = "pay" /\ slot = "main" ->
          LET out == o.main.res.r IN
-         IF out = "complete"
+         IF o.mode = "dpay" /\ out \in {"complete", "failed"}
+         THEN {Ret(e, ts, "pay", h, IF out = "complete" THEN "ok" ELSE "err", {}, na)}
+         ELSE IF out = "complete"
          THEN LET c == CS1(h) IN
               {Res(NoEntry, NoLc, BagAdd(ts, [o EXCEPT !.pc = "markS1", !.main = Issued(c)]), Settle(h), {c}, {}, 0, na)}
          ELSE IF out = "failed"
@@ -272,7 +281,7 @@ Apply(h, ev, r, extraAns) ==
      /\ tails' = [tails EXCEPT ![h] = r.ts]
      /\ nextAtt' = r.na
      /\ lastAns' = DOMAIN answers
-     /\ NodeStep(ev, [answers |-> answers, issues |-> r.issues, drops |-> r.drops, npanic |-> r.np])
+     /\ NodeStep(ev, [answers |-> answers, issues |-> r.issues, drops |-> r.drops, npanic |-> r.np, rets |-> r.rets])
 
 EnvOnly(ev) ==
   /\ NodeStep(ev, NoReaction)
@@ -378,6 +387,28 @@ PartDone(p, how, code) ==
   /\ EnvOnly([t |-> "partdone", p |-> p, how |-> how, code |-> code])
   /\ UNCHANGED <<table, own, tails, nextAtt, budget>>
 
+\* direct calls (Engine A-prov): wait_payment(h) / pay(invoice of h) called with no lifecycle around
+CallWp(h) ==
+  /\ budget.direct > 0 /\ own[h].pc = "none" /\ ~table[h].on
+  /\ Apply(h, [t |-> "call", fn |-> "wp", hash |-> h],
+           StartWait(h, NoEntry, [NoLc EXCEPT !.mode = "dwp"], tails[h], "direct", nextAtt), <<>>)
+  /\ budget' = [budget EXCEPT !.direct = @ - 1]
+
+CallPay(h) ==
+  /\ budget.direct > 0 /\ own[h].pc = "none" /\ ~table[h].on
+  /\ LET c == CPay(h, 1, -1, 1, 10) IN
+     Apply(h, [t |-> "call", fn |-> "pay", hash |-> h],
+           Res(NoEntry, [NoLc EXCEPT !.mode = "dpay", !.pc = "pay", !.inv = 1, !.main = Issued(c)], tails[h],
+               NoResp, {c}, {}, 0, nextAtt), <<>>)
+  /\ budget' = [budget EXCEPT !.direct = @ - 1]
+
+\* a part left behind by an earlier attempt (only while nobody is waiting: E3, E5)
+MkPart(h) ==
+  /\ Direct > 0 /\ budget.direct > 0 /\ own[h].pc = "none"
+  /\ Len(parts) < MaxParts
+  /\ EnvOnly([t |-> "paypart", hash |-> h])
+  /\ UNCHANGED <<table, own, tails, nextAtt, budget>>
+
 PayOutcomes == {"complete", "pending", "failed_warn", "failed", "error"}
 
 \* E4: complete needs a completed part; FAILED without the warning needs nothing live
@@ -432,7 +463,7 @@ Next ==
   \/ \E h \in Hashes : \E d \in Desigs(h) :
         \/ \E f \in {"none", "reject", "lost", "error"} : Exec(h, d, f)
         \/ Deliver(h, d)
-  \/ \E h \in Hashes : PayPart(h)
+  \/ \E h \in Hashes : PayPart(h) \/ MkPart(h) \/ CallWp(h) \/ CallPay(h)
   \/ \E h \in Hashes, o \in PayOutcomes : PayReturn(h, o)
   \/ \E p \in PartIds : PartDone(p, "complete", 0) \/ PartDone(p, "failed", 203)
   \/ Tick
@@ -445,7 +476,7 @@ Spec == Init /\ [][Next]_vars
 (* Structural invariants of the model *)
 
 TypeOK ==
-  /\ \A h \in Hashes : table[h].on <=> own[h].pc # "none"
+  /\ \A h \in Hashes : table[h].on <=> (own[h].pc # "none" /\ own[h].mode = "lc")
   /\ \A h \in Hashes : ~table[h].on => HeldT(h) = {}
 
 \* the listed properties as action properties of the design
@@ -460,5 +491,7 @@ PC08 == [][C08]_vars
 PC11 == [][C11]_vars
 PC12 == [][C12]_vars
 PC13 == [][C13 /\ C10hint]_vars
+PC15 == [][C15]_vars
+PC16 == [][C16]_vars
 
 =============================================================================
